@@ -9,7 +9,8 @@ id=$1; v=$2; shift 2
 checks=${*:-$id}
 # SEED_OUT=out2 selects the second (adversarial) round: deliverables under /tmp/seed/<ID>/out2, names <ID><v>2
 src=/tmp/seed/$id/${SEED_OUT:-out}/$v
-name=${id}${v}$([ "${SEED_OUT:-out}" = out ] || echo 2)
+suffix=$(echo "${SEED_OUT:-out}" | sed 's/^out//')
+name=${id}${v}${suffix}
 root=/tmp/sv/$name
 [ -f $src/patch.diff ] && [ -f $src/demo.rs ] && [ -f $src/meta.json ] || { echo "$name MISSING-DELIVERABLES"; exit 2; }
 rm -rf $root; mkdir -p $root
@@ -44,8 +45,9 @@ if [ "$verdict" = confirmed ]; then
 import json,sys
 m=json.load(open(sys.argv[1]))
 m['seed_id']=sys.argv[3]
-m['round']=2 if sys.argv[3].endswith('2') else 1
-if m['round']==2: m['round_note']='second round: the sub-agent was additionally told that the tool enumerates small scopes exhaustively and was asked for defects likely to escape small-scope enumeration'
+m['round']=int(sys.argv[3][-1]) if sys.argv[3][-1].isdigit() else 1
+if m['round']==3: m['round_note']='third round: the sub-agent was given the property text and a scratch worktree, was told that a bounded-exhaustive checker with a reference model exists (nothing about its spaces), and was asked for a change needing a specific multi-step history, unusual input, rarely used entry point or two cooperating sites'
+elif m['round']==2: m['round_note']='second round: the sub-agent was additionally told that the tool enumerates small scopes exhaustively and was asked for defects likely to escape small-scope enumeration'
 else: m['round_note']='first round: the sub-agent was given only the text of the property and a scratch worktree' 
 m['confirmed']={'demo_on_clean_tree':'passes','demo_with_patch':'fails','repository_suite_with_patch':'passes (cargo test --workspace --no-fail-fast --offline)','how':'tools/seedcheck.sh in a scratch worktree of /repo'}
 m['checks_run']=sys.argv[4].split()
